@@ -202,3 +202,17 @@ pub fn roundtrip(
         }
     }
 }
+
+/// Lock-discipline monitor of the sync record store (hook `verif_lock`): acquisitions made by a thread that already
+/// held the same lock. std's RwLock may deadlock on each of them depending on timing; the acquisition itself is the event.
+pub fn report_lock_discipline(ctx: &mut Ctx, clause: &str, family: &str) {
+    for r in simple_mdns::verif::take_lock_reports() {
+        // "read-while-holding-read at file:line (thread x)"
+        let kind = r.split(' ').next().unwrap_or("lock").to_string();
+        let at = r.split(" at ").nth(1).and_then(|x| x.split(' ').next()).map(crate::monitor::short_loc).unwrap_or_default();
+        ctx.violation(clause, &format!("lock-discipline:{}@{}", kind, at),
+            format!("a library thread acquired the record store's RwLock while it already held it ({}): std's RwLock may deadlock there, depending on timing", r),
+            json!({"family": family, "idx": 0, "report": r}));
+    }
+    ctx.count("lock_discipline_monitor_read");
+}
